@@ -6,6 +6,10 @@ import glob
 
 HERE = os.path.dirname(os.path.abspath(__file__))
 rows = []
+try:
+    NOTES = json.load(open(os.path.join(HERE, "seeded", "NOTES.json")))
+except Exception:
+    NOTES = {}
 for d in sorted(glob.glob(os.path.join(HERE, "seeded", "*"))):
     mp = os.path.join(d, "meta.json")
     if not os.path.exists(mp):
@@ -23,7 +27,7 @@ for d in sorted(glob.glob(os.path.join(HERE, "seeded", "*"))):
     if isinstance(needs, (list, dict)):
         needs = json.dumps(needs)
     needs = needs.replace("\n", " ").replace("|", "/")
-    note = (m.get("strengthening") or "").replace("|", "/")
+    note = (NOTES.get(sid) or m.get("strengthening") or "").replace("|", "/")
     rows.append((sid, m.get("property", sid), summ[:260], needs[:260], "yes" if ok else "NOT CONFIRMED", ", ".join(caught) or "-", ", ".join(missed) or "-", note))
 print("| seed | breaks | change | needs to manifest | confirmed (demo 1/0, suite 152/152) | caught by (quick tier) | run but quiet | strengthening made because of it |")
 print("|---|---|---|---|---|---|---|---|")
